@@ -305,6 +305,10 @@ impl Viol {
                 if nm.is_empty() {
                     nm.push(b'x');
                 }
+                // a stand-alone "ls" / "na" is not a protocol name without a slash but the valid keyword message
+                if !*in_list && (nm == b"ls" || nm == b"na") {
+                    nm.push(b'x');
+                }
                 wrap_name(&nm, *in_list)
             }
             Viol::NonUtf8 { in_list, bad } => {
